@@ -49,6 +49,11 @@ CHECKS["C18"] = dict(engine="arena-kernels",
   text="Arena.tla is checked exhaustively for histories up to 6-8 operations over 4-5 ids, 2/3/4 slots per chunk; every TLC-emitted behaviour is executed on the real arena with slot table, free-list order, chunk files, bytes of every physical slot and GetBytes of every id compared after every step. Kernels.tla enumerates the integer/dyadic lattice; every state is executed on the real kernels, quantiser and hnsw read-back.",
   note="Not decided: tolerance bounds over general float magnitudes and 'perturbs rankings only among near-ties' for general data (lattice instances only). Pure-Go build only. Open findings KF-C18-1/2 are API level (the engine never calls FreeSlot). Built by a sub-agent.", ref="6 C18")
 
+CHECKS["C17"] = dict(engine="gateway",
+  technique="TLC on Gateway.tla (documented ServeHTTP pipeline vs. the admission/cache/invalidation requirement, five sensitivity canaries) + replay of TLC's transition-cover and random-walk histories on a real proxy.AIProxy, every step compared (status, upstream count, served answer, cache index contents)",
+  text="TLC enumerates every history of the gateway decision machine within small bounds and checks Blocked <=> fw and (pattern or d<thr) regardless of marker, refused/hit => no upstream call, hit <=> fresh entry within the cache distance, Invalidate removes exactly the citing entries; the histories are executed on the real AIProxy over real engine indexes (cosine and euclidean, gateway-created and operator-created cache index, prompt/messages shapes, multi-turn decoys, mixed case) and every step is compared.",
+  note="Trusted: stub embedder/upstream/rewriter; the refinement position->vector (proved at start-up against the real kernels, >=20% margin); TTL advanced by rewriting created_at; sequential histories only. Built by a sub-agent.", ref="6 C17")
+
 NOT_YET = {}
 
 def main():
@@ -79,6 +84,7 @@ def main():
             {"name": "http-auth", "path": "spec/Auth.tla + tools/check_C16.py + harness/cmd/vauth", "serves_properties": ["C16"], "kind_free_text": "TLA+ policy/reference-monitor product + restart machine, replayed on the real server"},
             {"name": "kektor-conc", "path": "spec/Conc.tla + spec/Trace_Conc.tla + tools/check_C13.py + harness/cmd/vreplay/conc.go", "serves_properties": ["C13"], "kind_free_text": "trace validation of real concurrent executions (race build)"},
             {"name": "arena-kernels", "path": "spec/Arena.tla + spec/Kernels.tla + tools/check_C18.py + harness/cmd/c18", "serves_properties": ["C18"], "kind_free_text": "TLA+ transcription of arena/compactor and kernels; behaviours replayed on the real code"},
+            {"name": "gateway", "path": "spec/Gateway.tla + tools/check_C17.py + harness/cmd/vgateway", "serves_properties": ["C17"], "kind_free_text": "TLA+ decision machine, histories replayed on the real AIProxy"},
             {"name": "decay", "path": "spec/Decay.tla + tools/check_C15.py + harness/cmd/c15decay", "serves_properties": ["C15"], "kind_free_text": "TLA+ case analysis, one implementation test per TLC state"},
             {"name": "http-conformance", "path": "spec/Http.tla + tools/check_C19.py + harness/cmd/vhttp", "serves_properties": ["C19"], "kind_free_text": "TLA+ request/FS model, cases replayed on the real server"},
             {"name": "kektor-engine", "path": "spec/Kektor.tla + tools/engine_checks.py + harness/internal/eng", "serves_properties": ["C01", "C04", "C05", "C10", "C12"],
